@@ -15,12 +15,6 @@ TR = "prqlc/prqlc/src/semantic/resolver/transforms.rs"
 PP = "prqlc/prqlc/src/sql/pq/preprocess.rs"
 UT = "prqlc/prqlc/src/ir/pl/utils.rs"
 
-# sha1 of the whitespace-squeezed, comment-free bodies of the hand-modelled algorithms
-SHAPES = {
-    "static_eval_rq_operator": None,
-    "static_eval_case": None,
-}
-
 
 def codes(s):
     return "[" + ";".join(str(ord(c)) for c in s) + "]"
@@ -132,11 +126,11 @@ def extract():
 
 # the shapes the hand-written models in Model/StaticEval.v were written against
 EXPECTED = {
-    "static_eval_rq_operator": "@static_eval_rq_operator@",
-    "static_eval_case": "@static_eval_case@",
-    "maybe_static_eval": "@maybe_static_eval@",
-    "in": "@in@",
-    "normalizer": "@normalizer@",
+    "static_eval_rq_operator": "8cabe0013c92efdcb4d61c1b64dcd9b461134f1e",
+    "static_eval_case": "064f0ff64a52050e0b460ee52b2d182231356856",
+    "maybe_static_eval": "2fd1ac5c225a8e2597a05cf0625b0dc05934ffaf",
+    "in": "79c6235af378c429a666dbc3afb2245d82e9a4d6",
+    "normalizer": "fae9f35249ad32c51815e853df76d3f2ae7d29e9",
 }
 
 
